@@ -14,7 +14,7 @@ def base_data(name):
         _cache[name] = lzma.decompress(open(os.path.join(VERIF, 'corpus', name + '.img.xz'), 'rb').read())
     return _cache[name]
 
-def mutant_list(name, sealed=(False, True), fields_filter=None):
+def mutant_list(name, sealed=(False, True), fields_filter=None, settle=False):
     """[(mid, off, size, value, seal-or-None)]  (seal variants only where the filesystem has checksums and the field is sealable)"""
     d = base_data(name)
     img = Image(d)
@@ -29,6 +29,10 @@ def mutant_list(name, sealed=(False, True), fields_filter=None):
                 if s and (not csum_fs or f.seal is None or f.klass == 'csum'):
                     continue
                 out.append(('%s/%s=0x%x%s' % (name, f.id(), v, '+seal' if s else ''), f.off, f.size, v, f.seal if s else None))
+            # block pointers inside inodes / mapping blocks: one more variant whose allocation summaries are settled around the new pointer
+            if settle and f.klass == 'blk' and not img.bigalloc and re.match(r'ino\d+', f.obj) and f.name != 'i_file_acl_lo':
+                m = re.match(r'ino(\d+)', f.obj)
+                out.append(('%s/%s=0x%x+settle' % (name, f.id(), v), f.off, f.size, v, ('settle', int(m.group(1))) + tuple(f.seal or ())))
     return out
 
 def make_mutant(name, off, size, value, seal):
@@ -54,9 +58,16 @@ def make_multi(name, parts):
     img = Image(base_data(name))
     for off, size, value, seal in parts:
         d[off:off + size] = value.to_bytes(size, 'little')
+    st = None
     for off, size, value, seal in parts:
+        if seal is not None and seal[0] == 'settle':
+            st = seal; seal = tuple(seal[2:]) or None
         if seal is not None:
             layout.reseal(d, img, tuple(seal))
+    if st is not None:
+        from xck.settle import settle as _settle
+        r = _settle(bytes(d), st[1])
+        if r is not None: return r
     return bytes(d)
 
 PROB_RE = re.compile(r'<problem code="0x([0-9a-f]+)" answer="(-?\d+)"')
